@@ -196,6 +196,7 @@ def run(chk):
     chk.assumptions = ["lines are counted as an editor counts them: one per LF, CRLF is one line end",
                        "the failing construct is written on a single line (the property's proviso)"]
     chk.floor = 1500
+    chk.rule += '; plus multi-line literals ending in a line break / holding blank lines / escapes, char and byte literals holding a line break, runaway recursion (with 0-9 locals) as the failing construct'
     reps = 2 if quick else 40
     jobs = []
     for cname, ctext in CONSTRUCTS:
